@@ -24,6 +24,7 @@ ASSUMPTIONS = [
     "values outside the alphabets of DESIGN section 4 and frames longer than the row bound are not explored",
     "np.random.choice is the only source of randomness in DataFrame.sample (when the seam is not hit only the relation 'ordered n-subset' is checked)",
     "negative n for head/tail and filter() with no condition are unspecified and excluded",
+    "a string ending in a NUL character is explored as a column value but not as the comparison scalar of filter(col=value): NumPy's scalar conversion trims it before any comparison",
 ]
 BOUND = {
     "quick": "size ladder: periodic frames of 17, 129, 1025 rows for f8/str/i8/D keys and 65537 rows for int keys (thorough: 65537 for all four) x unique/drop_na/head/tail/slice/filter; rows 0..3; single-key alphabets 'quick' (<= 6 values) for f8,i8,u1,b1,str,U,D,us,obj; two-key frames over {NA,lo,hi}^2 with rows 0..3; all masks/indices/subsets/n/RNG answers",
@@ -50,6 +51,8 @@ def shards(tier):
             out.append({"part": "single", "kind": kind, "tier": tier, "n": n - 1, "first": None})
         else:
             out.append({"part": "single", "kind": kind, "tier": tier, "n": n, "first": None})
+    # strings that differ only in a trailing NUL (fixed-width NumPy strings cannot tell them apart)
+    out.append({"part": "single", "kind": "str", "tier": tier, "n": 3, "first": None, "alpha": [None, "a", "a\x00", "b"]})
     for k1, k2 in PAIRS:
         out.append({"part": "pair", "k1": k1, "k2": k2, "n": n})
     # size ladder: periodic frames just above powers of two / ten (a chunked or cached implementation must not care)
@@ -383,7 +386,7 @@ def run_shard(shard, rec):
         return
     if shard["part"] == "single":
         kind, tier, n = shard["kind"], shard["tier"], shard["n"]
-        alpha = V.alphabet(kind, tier)
+        alpha = shard.get("alpha") or V.alphabet(kind, tier)
         if shard["first"] is None:
             it = V.seqs(alpha, 0, n)
         else:
@@ -395,6 +398,10 @@ def run_shard(shard, rec):
             # full index/column space on frames whose key is the alphabet prefix (one per length)
             full = toks == list(alpha[:m]) or m <= 2
             ops = ops_for(cols, full) + unique_ops(["k"])
+            if "alpha" in shard:
+                # a NUL-terminated string as the comparison SCALAR of filter(col=value) is trimmed by NumPy's own
+                # scalar conversion (np.asarray("a\x00") is 'a'): not explored; the column values are what matters here
+                ops = [o for o in ops if not str(o.get("value", "")).endswith("\x00")]
             check_case({"cols": cols, "ops": ops}, rec)
     else:
         k1, k2, n = shard["k1"], shard["k2"], shard["n"]
